@@ -65,10 +65,10 @@ def main() -> int:
         counts = []
         for workers in ("1", "16"):
             env2 = dict(os.environ, PYTHONHASHSEED="0", VERIF_WORKERS=workers, VERIF_SEED=str(seed), TZ="UTC",
-                        VERIF_BUDGET_SCALE="0.1")
+                        VERIF_BUDGET_SCALE="0.1", VERIF_EVIDENCE_DIR="/tmp/verif-determinism-evidence")
             rr = subprocess.run(["./check", pid, "--tier", "quick"], capture_output=True, text=True, env=env2,
                                 cwd=VERIF, timeout=3600)
-            ev = json.load(open(os.path.join(VERIF, "evidence", f"{pid}.json")))
+            ev = json.load(open(os.path.join("/tmp/verif-determinism-evidence", f"{pid}.json")))
             counts.append((ev["coverage"]["evaluations"], ev["coverage"]["distinct_event_log_digests"],
                            ev["coverage"]["determinism_selfcheck"]["mismatch"], rr.returncode))
         par = counts[0][:3] == counts[1][:3] and counts[0][2] == 0
